@@ -32,6 +32,7 @@ import (
 	"fmt"
 	"math/big"
 	"sort"
+	"strings"
 	"testing"
 	"time"
 
@@ -446,6 +447,17 @@ func (m *c12Monitor) After(c *Chain, w *World, br *BlockResult, outs []TxOutcome
 	soFar := c12Flow{}
 	soFar.merge(begin)
 	submitIdx := map[string]int{}
+	submitLast := map[string]int{} // last accepted submit per reporter|query id in this block (pre-pass)
+	for i, o := range outs {
+		if !o.OK() {
+			continue
+		}
+		for _, raw := range o.Tx.Msgs {
+			if msg, ok := raw.(*oracletypes.MsgSubmitValue); ok {
+				submitLast[string(c12Addr(msg.Creator))+"|"+string(utils.QueryIDFromData(msg.QueryData))] = i
+			}
+		}
+	}
 	funded := map[uint64]bool{}
 	votedNow := map[uint64]bool{}
 	var records map[string][]c12Rec
@@ -495,7 +507,7 @@ func (m *c12Monitor) After(c *Chain, w *World, br *BlockResult, outs []TxOutcome
 				if records == nil {
 					records = c12ReadRecords(c)
 				}
-				if v := m.checkVote(c, pre, i, T, h, msg, runTeam, runSel, soFar, balOK, funded, submitIdx, records, selOK); v != nil {
+				if v := m.checkVote(c, pre, i, T, h, msg, runTeam, runSel, soFar, balOK, funded, submitIdx, submitLast, records, selOK); v != nil {
 					return v
 				}
 				votedNow[msg.Id] = true
@@ -726,6 +738,21 @@ func (m *c12Monitor) After(c *Chain, w *World, br *BlockResult, outs []TxOutcome
 								sig = "C12/vote-counts/exceeds-group-total/reporters/disputed-reporter-votes-with-slashed-stake"
 							}
 						}
+						// same mechanism across disputes: a reporter slashed by an EARLIER dispute (its stake left the bonded
+						// total before this dispute's snapshot) still votes here with the stake recorded at its last report
+						if sig == "C12/vote-counts/exceeds-group-total/reporters" {
+							for od, other := range post.disputes {
+								if od == id || other.DisputeStatus == disputetypes.Prevote || other.BlockNumber > post.disputes[id].BlockNumber {
+									continue
+								}
+								slashed := string(c12Addr(other.InitialEvidence.Reporter))
+								for vk, v := range d.voters {
+									if vk == slashed || v.reporter == slashed {
+										sig = "C12/vote-counts/exceeds-group-total/reporters/reporter-slashed-by-earlier-dispute-votes-with-pre-slash-stake"
+									}
+								}
+							}
+						}
 					}
 					if vv := m.viol(sig, "block %d: dispute %d: VoteCountsByGroup %s/%s is %s, more than the group total %s", h, id, c12Groups[g], disputetypes.VoteEnum(ch), got, total); vv != nil {
 						return vv
@@ -794,7 +821,7 @@ func (d *c12Disp) firstRound(m *c12Monitor) *c12Disp {
 
 // checkVote evaluates one accepted MsgVote against the state just before it.
 func (m *c12Monitor) checkVote(c *Chain, pre *c12Snap, i int, T time.Time, h int64, msg *disputetypes.MsgVote, team []byte, sel map[string]string,
-	soFar c12Flow, balOK func(string) bool, funded map[uint64]bool, submitIdx map[string]int, records map[string][]c12Rec, selOK bool) *pbt.Violation {
+	soFar c12Flow, balOK func(string) bool, funded map[uint64]bool, submitIdx, submitLast map[string]int, records map[string][]c12Rec, selOK bool) *pbt.Violation {
 	id := msg.Id
 	voter := c12Addr(msg.Voter)
 	vk := string(voter)
@@ -876,6 +903,13 @@ func (m *c12Monitor) checkVote(c *Chain, pre *c12Snap, i int, T time.Time, h int
 	if has {
 		v.reporter = cur
 		total, o, _, ok := c12Latest(records[cur], d.blockNo, vk, visible(cur))
+		// the records are read from the state after the block: a report made before this vote and replaced by a later
+		// report of the same reporter and query in the same block no longer shows what the chain saw at vote time
+		for key, last := range submitLast {
+			if first := submitIdx[key]; strings.HasPrefix(key, cur+"|") && first < i && last > i {
+				ok = false
+			}
+		}
 		if !ok {
 			m.counters["stake-record-ambiguous"]++
 			d.tainted = true
